@@ -496,9 +496,6 @@ func (w *World) onConfApplied(n *node, idx uint64, cs *pb.ConfState, next model.
 				}
 			}
 		}
-		if len(got.V) <= 2 && len(got.O) > 0 || len(got.O) == 2 || len(got.O) == 1 {
-			m.twoVoterExc = true
-		}
 	}
 }
 
